@@ -132,6 +132,9 @@ void usim_set_ncpus(int n);
 
 /* Tracked-arena helpers */
 int usim_mem_is_live(const void *p);
+/* a node pointer handed back by the code under test, checked before the harness dereferences it:
+ * fails the run (wild-pointer / use-after-free) unless [p, p+len) lies in a live heap object */
+void usim_node_check(const void *p, unsigned long len, const char *what);
 /* Name an allocation for reports */
 void usim_mem_tag(const void *p /* may be uninitialised memory */, const char *fmt, ...) __attribute__((format(printf, 2, 3)));
 /* number of arena mapping requests (mmap/mremap) seen so far */
